@@ -48,8 +48,19 @@ func c06Subtree(r *R) {
 	// jobs per actor: one Loop; or a Once that has fired long before the kill plus the Loop; or those plus a second Loop
 	// (termination must clear every job of an actor, whatever state its other jobs are in)
 	jobsMode := r.Choose(3)
+	// subscriptions per actor: one; or one plus a subscription to another event type that is given up again at once (what is
+	// left must still be removed at termination); or both kept, the first one requested twice
+	subsMode := r.Choose(3)
 	launch := func(ctx vivid.ActorContext, p *Probe) {
 		ctx.EventStream().Subscribe(ctx, c06Evt{})
+		switch subsMode {
+		case 1:
+			ctx.EventStream().Subscribe(ctx, c06Tick{})
+			ctx.EventStream().Unsubscribe(ctx, c06Tick{})
+		case 2:
+			ctx.EventStream().Subscribe(ctx, c06Tick{})
+			ctx.EventStream().Subscribe(ctx, c06Evt{})
+		}
 		if jobsMode >= 1 {
 			_ = ctx.Scheduler().Once(ctx.Ref(), time.Millisecond, c06Tick{Owner: p.Path}, vivid.WithSchedulerReference("o1"))
 		}
@@ -338,7 +349,10 @@ func c06Subtree(r *R) {
 	// stale subscriptions and jobs: publish now, wait, nothing may reach (or be dead-lettered for) the dead actors
 	mark := len(w.Events())
 	tPub := w.now()
-	w.Tell(watchers[0], w.NewCmd("publisher", 0, func(ctx vivid.ActorContext, p *Probe) { ctx.EventStream().Publish(ctx, c06Evt{N: 999}) }))
+	w.Tell(watchers[0], w.NewCmd("publisher", 0, func(ctx vivid.ActorContext, p *Probe) {
+		ctx.EventStream().Publish(ctx, c06Evt{N: 999})
+		ctx.EventStream().Publish(ctx, c06Tick{Owner: "@published-after-the-kill"})
+	}))
 	vsimrt.SettleFor(time.Second)
 	evs2 := w.Events()
 	mu.Lock()
@@ -354,7 +368,7 @@ func c06Subtree(r *R) {
 			}
 		}
 		for _, e := range evs2[mark:] {
-			if e.Kind == "Evt:DeathLetter" && e.Ref == p && strings.Contains(e.Info, "c06Evt") {
+			if e.Kind == "Evt:DeathLetter" && e.Ref == p && (strings.Contains(e.Info, "c06Evt") || strings.HasSuffix(e.Info, "c06Tick")) {
 				r.Fail("C06/stale-subscription", "an event published after %s terminated was sent to it and became a dead letter: its subscription was not removed", p)
 				return
 			}
